@@ -47,30 +47,42 @@ def coeffs_of(fields, E):
     return C
 
 
+_POLYMLP = None
+
+
+def _polymlp_class():
+    """one class object per process: parameters built by one call must combine with the static part of another"""
+    global _POLYMLP
+    if _POLYMLP is None:
+        import jax
+        import jax.numpy as jnp
+        import equinox as eqx
+
+        class PolyMLP(eqx.Module):
+            C: jax.Array
+            E: tuple = eqx.field(static=True)
+
+            def __call__(self, z):
+                mons = []
+                for e in self.E:
+                    m = jnp.ones((), dtype=z.dtype)
+                    for i, p in enumerate(e):
+                        if p:
+                            m = m * z[i] ** int(p)
+                    mons.append(m)
+                return self.C @ jnp.stack(mons)
+
+        _POLYMLP = PolyMLP
+    return _POLYMLP
+
+
 def make_polymlp(fields, E=None):
-    import jax
     import jax.numpy as jnp
-    import equinox as eqx
 
     E = basis_of(fields) if E is None else E
     if not E:
         E = ((0,) * 1,)
-
-    class PolyMLP(eqx.Module):
-        C: jax.Array
-        E: tuple = eqx.field(static=True)
-
-        def __call__(self, z):
-            mons = []
-            for e in self.E:
-                m = jnp.ones((), dtype=z.dtype)
-                for i, p in enumerate(e):
-                    if p:
-                        m = m * z[i] ** int(p)
-                mons.append(m)
-            return self.C @ jnp.stack(mons)
-
-    return PolyMLP(jnp.asarray(coeffs_of(fields, E)), E)
+    return _polymlp_class()(jnp.asarray(coeffs_of(fields, E)), E)
 
 
 def polyeval(terms, z):
